@@ -875,6 +875,10 @@ def check(run, db, tier):
         run.info('zygo_scale_rules not run (the header overrides of write_zygo_dat were not read): scale, sentinel, mask placement and the unit conversions '
                  'around the file layer were decided by composition')
     run.group(reading(trunc_rules, 'trunc', ()), run, db)
+    run.forgive('codev_compose_rules', ['codev_rules'], (('C14.compose', 8),))
+    run.forgive('zygo_compose_rules', ['orientation_rules', 'zygo_scale_rules', 'struct_rules'], (('C14.compose', 6),))
+    run.forgive('interferogram_compose_rules', ['zygo_scale_rules'], (('C14.compose', 2),))
+    run.forgive('zygo_truncation_rules', ['trunc_rules'], (('C14.trunc', 40),))
     run.require_instances('C14.struct', 150)
     run.require_instances('C14.orient', 2)
     run.require_instances('C14.scale', 4)
